@@ -9,7 +9,7 @@ rsync -a --exclude .git /repo/ $scratch/repo/
 cp /verif/known_findings.json $scratch/home/
 (cd $scratch/repo && patch -p1 -s < $patch) || { echo PATCH-FAILED; exit 3; }
 (cd $scratch/repo && unset CGO_ENABLED && go build ./... && go test -vet=off -count=1 ./... 2>&1 | grep -E "^(FAIL|---)" | grep -v "TestCgroupAll\|pkg/cgroup\|^FAIL$")
-out=$(GSVERIF_REPO=$scratch/repo GSVERIF_HOME=$scratch/home /verif/bin/gsverif checkall 2>&1)
+out=$(GSVERIF_REPO=$scratch/repo GSVERIF_HOME=$scratch/home ${GSVERIF_BIN:-/verif/bin/gsverif} checkall 2>&1)
 if echo "$out" | grep -q "^VIOLATION"; then
   echo "== ALARM $(basename $patch): $(echo "$out" | grep '^VIOLATION' | sed 's/VIOLATION property=\([A-Z0-9]*\).*/\1/' | sort -u | tr '\n' ' ')"
   echo "$out" | grep -E "^FAILED" | sed "s#$scratch/repo/##g" | cut -c1-300
